@@ -8,7 +8,7 @@ import json
 
 import graphhist as gh
 import progs
-from common import known_findings, rng_for
+from common import HarnessError, known_findings, rng_for
 
 
 def c9_terms(b, r):
@@ -130,6 +130,31 @@ def run(rep, work, tier, seed, props, replay=None):
         rep.violation({"kind": "correspondence Model/GraphP.v <-> implementation no longer holds on a history (outcomes, gradients or creator/consumer bookkeeping differ) "
                                "while the property oracle found nothing wrong", "broken": "correspondence C09: GraphCorr.gcase_ok",
                        "stmts": kb[k].stmts, "impl": kr[k], "n_disagreements": len(bad)}, no_input=True)
+    # every operation of the catalogue (incl. the nnet layers, whose backward bypasses backward_var through SkipGradient): one operand is an
+    # intermediate shared with a second graph that is back-propagated first; the pass through the operation must then raise InvalidBackprop
+    # (or, if it returns, leave exactly the gradient of the recorded forward pass)
+    sweep, sweep_hist, sweep_bad = [], {}, 0
+    if replay is None or "catalog_index" in (replay or {}):
+        from common import run_impl_parallel
+        info = run_impl_parallel("ops_impl.py", [{"list": True}])[0]
+        idx = list(range(info["n"])) if replay is None else [replay["catalog_index"]]
+        tasks = [{"index": i, "mode": "stale", "seed": seed, "operand": k} for i in idx for k in ((0, 1, 2) if tier == "thorough" else (0, 1))]
+        parts = [tasks[i::16] for i in range(16)]
+        flat = [t for p in parts for t in p]
+        for rr in run_impl_parallel("ops_impl.py", [{"tasks": p} for p in parts if p]):
+            sweep.extend(rr["results"])
+        shown = set()
+        for t, r in zip(flat, sweep):
+            if "harness_error" in r:
+                raise HarnessError("ops_impl: " + r["harness_error"])
+            sweep_hist[r["outcome"]] = sweep_hist.get(r["outcome"], 0) + 1
+            if r["outcome"] not in ("InvalidBackprop", "silent-correct", "identity"):
+                sweep_bad += 1
+                key = r["label"].split("(")[0].split(" ")[0]
+                if key not in shown and len(shown) < 6:
+                    shown.add(key)
+                    rep.violation({"kind": "operation sweep: back-propagating through %s after the graph of one of its operands was cleared by another backward() did not raise InvalidBackprop: %s"
+                                           % (r["label"], r["outcome"]), "catalog_index": t["index"], "operand": t["operand"], "seed": t["seed"], "result": r})
     if not props["ok"]:
         rep.violation({"kind": "proof obligations of Props/C09.v no longer check", "broken": "Props/C09.v", "log": props["log"][-1500:]}, no_input=not viol)
 
@@ -139,7 +164,8 @@ def run(rep, work, tier, seed, props, replay=None):
         return sum(1 for k in kinds if k in ("backward", "clear")) >= 2
     nt = set(progs.canonical(b) for b in kb if nontrivial(b))
     rep.coverage.update({
-        "evaluations": len(kb),
+        "evaluations": len(kb) + len(sweep),
+        "operation_sweep_outcomes": sweep_hist, "operation_sweep_violations": sweep_bad,
         "distinct_nontrivial": len(nt),
         "rule": "histories: 1-3 leaves, 2-7 ops, then 2-7 events drawn from {backward on a non-constant tensor, clear_graph, null_grad, 1-3 new ops on any live tensor "
                 "(incl. tensors whose graph was cleared), del}, then a final backward; non-trivial = at least two backward/clear_graph statements; distinct = distinct statement list",
